@@ -168,8 +168,10 @@ class C40(core.Prop):
                    "(same per-actor transitions, every dependent pair in the same order)" % (len(runs["odpor"]), sum(len(d) - 1 for d in dup), fmt(dup[0][0]), fmt(dup[0][1])))
         missing = [c for c in cn if c not in co]
         extra = [c for c in co if c not in cn]
+        allops = [o[0] for a in sc["actors"] for o in a["ops"]]
+        cvt = ":condvar-timed-wait" if "cv_wait_for" in allops and ("notify_one" in allops or "notify_all" in allops) else ""
         if missing:
-            oc.bad("odpor-misses-class", "%s %d executions in %d classes, odpor %d executions in %d classes: no odpor execution is "
+            oc.bad("odpor-misses-class" + cvt, "%s %d executions in %d classes, odpor %d executions in %d classes: no odpor execution is "
                    "equivalent to %s" % ("reduction none explored" if mode == "exact" else "random schedules gave", len(runs["none"]), len(cn),
                                          len(runs["odpor"]), len(co), fmt(cn[missing[0]][0])))
         if extra and mode == "exact":
